@@ -44,10 +44,16 @@ func genC19(t *rapid.T) History {
 		k := rapid.IntRange(0, 99).Draw(t, "opkind")
 		switch {
 		case closed:
-			if k < 50 {
+			switch {
+			case k < 35:
 				h.Ops = append(h.Ops, Op{K: opMaintain})
-			} else {
+			case k < 70:
 				h.Ops = append(h.Ops, Op{K: opClose})
+			default:
+				// a push after Close: what the push itself does is not specified, but a later Maintain or Close
+				// must still fail and deliver nothing
+				next++
+				h.Ops = append(h.Ops, Op{K: opPush, Seq: h.Base + next, Typ: rapid.SampledFrom([]uint16{1300, 1302, 1327, eoe}).Draw(t, "typafterclose")})
 			}
 		case k < 22:
 			h.Ops = append(h.Ops, Op{K: opMaintain})
@@ -101,6 +107,7 @@ func propC19(h History) error {
 	var hi uint32
 	hiSet := false
 	timeoutOnly, postClose := false, false
+	pushedAfterClose := false
 	var nDef, nLive, nUndet int
 	for i, o := range h.Ops {
 		st := &tr.Steps[i]
@@ -133,6 +140,9 @@ func propC19(h History) error {
 		}
 		if closedAt >= 0 {
 			postClose = true
+			if o.K == opPush {
+				pushedAfterClose = true
+			}
 			if o.K == opMaintain || o.K == opClose {
 				if st.Err == nil {
 					return fmt.Errorf("op %d: %s after Close (op %d) returned nil", i, o.K, closedAt)
@@ -217,6 +227,9 @@ func propC19(h History) error {
 	}
 	if postClose {
 		hC19.Class("history-with-call-after-close")
+	}
+	if pushedAfterClose {
+		hC19.Class("history-with-push-after-close")
 	}
 	if timeoutOnly || postClose {
 		hC19.NonTrivial(fpHistory(h), h.Describe)
